@@ -79,7 +79,14 @@ Proof.
   intros HJ P q b Hs H. apply C13_polygon_evenodd; [exact H|]. apply HJ. exact Hs.
 Qed.
 
-(** (d) Rect::to_poly: the polygon code and the rectangle code agree. *)
+(** (d) Containment is inclusive: every vertex of the list and every point of every edge is
+    answered [true] (the documented contract of [ShapeTrait::contains]). *)
+Theorem C13_polygon_boundary_inside :
+  (forall P v, In v P -> on_boundary P v) /\
+  (forall P q b, poly_contains P q = Ret b -> on_boundary P q -> b = true).
+Proof. exact (conj vertex_on_boundary boundary_inside). Qed.
+
+(** (e) Rect::to_poly: the polygon code and the rectangle code agree. *)
 Theorem C13_polygon_rect :
   forall p0 p1 q, pt_ok p0 -> pt_ok p1 -> pt_ok q ->
     poly_contains (rect_to_poly p0 p1) q = Ret (rect_contains p0 p1 q).
@@ -266,6 +273,7 @@ Print Assumptions C13_polygon_evenodd.
 Print Assumptions C13_evenodd_vs_nonzero.
 Print Assumptions C13_polygon_evenodd_needs_winding_bound.
 Print Assumptions C13_polygon_simple_partial.
+Print Assumptions C13_polygon_boundary_inside.
 Print Assumptions C13_polygon_rect.
 Print Assumptions C13_region_rotate.
 Print Assumptions C13_region_reverse.
